@@ -1392,3 +1392,42 @@ Proof.
   unfold exact_all in HA. apply (proj1 (forallb_forall _ _) HA) in Hin. cbn [fst snd] in Hin.
   rewrite Hr in Hin. exact Hin.
 Qed.
+
+From Typify Require Algo.Defaults Proofs.DefaultsProofs.
+(* ================================================================== Part 6: defaults.
+   `impl Default` and the serde default functions build a newtype through its private constructor,
+   from the default value [d] recorded in the type space.  A value that passed the add-time check
+   (Algo/Defaults.validate_value, C06's model of defaults.rs after fix 9117497, tied by C06's check)
+   satisfies the newtype's constraint, i.e. it is a value the type's own Deserialize accepts. *)
+Theorem validated_default_satisfies_string re T f t name def inner mx mn pat d k :
+  get_det T t = Some (DNewtype name def inner (CString mx mn pat)) ->
+  Defaults.validate_value re T (S f) t d = Defaults.ROk k ->
+  exists s, d = JStr s /\ str_constraints_ok re mx mn pat s = true.
+Proof.
+  intros E H. apply (DefaultsProofs.newtype_default_checked re T f t name def inner _ d k E) in H.
+  cbn [Defaults.constraint_ok] in H. destruct d; try discriminate. exists s. split; [reflexivity|].
+  unfold str_constraints_ok. unfold Defaults.opt_geb, Defaults.opt_leb in H. exact H.
+Qed.
+
+Theorem validated_default_accepted_string re native T f f' t name def inner mx mn pat d k :
+  get_det T t = Some (DNewtype name def inner (CString mx mn pat)) ->
+  Defaults.validate_value re T (S f) t d = Defaults.ROk k ->
+  Serde.de re native T (S f') t d <> None.
+Proof.
+  intros E H. destruct (validated_default_satisfies_string re T f t name def inner mx mn pat d k E H) as [s [-> C]].
+  rewrite (de_at re native T _ _ _ _ E). cbn [de_node]. rewrite C. discriminate.
+Qed.
+
+(* allow / deny lists: the add-time check compares serde_json values ([json_eqb]) *)
+Theorem validated_default_satisfies_list re T f t name def inner c d k :
+  get_det T t = Some (DNewtype name def inner c) ->
+  Defaults.validate_value re T (S f) t d = Defaults.ROk k ->
+  match c with
+  | CEnum vs => existsb (fun x => json_eqb x d) vs = true
+  | CDeny vs => existsb (fun x => json_eqb x d) vs = false
+  | _ => True
+  end.
+Proof.
+  intros E H. apply (DefaultsProofs.newtype_default_checked re T f t name def inner _ d k E) in H.
+  destruct c; try exact I; cbn [Defaults.constraint_ok] in H; [exact H | apply negb_true_iff; exact H].
+Qed.
